@@ -92,8 +92,15 @@ def run(prog: Program, rep: Report, tier: str) -> None:
             rep.check("R15.2", fi.qual, f"depth sampled at {da}", okd, what_bad="the bottom depth must be that of the cell occupied when the step began (grid.depth(X, Y) with the step-start positions), not of the new or an unrelated position", what_ok="grid.depth(X, Y), X, Y = state positions at the start of the step", loc=fi.loc())
             # X, Y are not rebound before the depth call
             rebinds = [n for n in walk_no_nested(fi.node) if isinstance(n, (ast.Assign, ast.AugAssign)) and any(isinstance(t, ast.Name) and t.id in (da[0] if da else []) for t in (n.targets if isinstance(n, ast.Assign) else [n.target]))]
-            first_defs = [n for n in rebinds if isinstance(n, ast.Assign) and isinstance(n.targets[0], ast.Tuple)]
-            rep.check("R15.2", fi.qual, "step-start positions are not rebound before the depth is sampled", len(rebinds) - len(first_defs) == 0 or not okd, what_bad=f"{[short(r) for r in rebinds]}", what_ok="bound once", loc=fi.loc())
+            # each of the two names is bound exactly once in the function (its definition from the state)
+            binds = {nm: 0 for nm in (da[0] if da else [])}
+            for n in walk_no_nested(fi.node):
+                if isinstance(n, (ast.Assign, ast.AugAssign)):
+                    for t in n.targets if isinstance(n, ast.Assign) else [n.target]:
+                        for el in t.elts if isinstance(t, (ast.Tuple, ast.List)) else [t]:
+                            if isinstance(el, ast.Name) and el.id in binds:
+                                binds[el.id] += 1
+            rep.check("R15.2", fi.qual, "step-start positions are not rebound before the depth is sampled", all(v == 1 for v in binds.values()) or not okd, what_bad=f"{[short(r) for r in rebinds]}", what_ok="bound once", loc=fi.loc())
     # the depth (and anything else per particle) is this step's, never an attribute left by an earlier step
     from . import c14
 
